@@ -54,3 +54,13 @@ func GenCancel(t *rapid.T) *CancelCase {
 	c.CancelPos = rapid.IntRange(0, c.NAsync).Draw(t, "pos")
 	return c
 }
+
+func GenRace(t *rapid.T) *RaceCase {
+	return &RaceCase{
+		Rounds:  rapid.IntRange(200, 600).Draw(t, "rounds"),
+		SpinMax: rapid.SampledFrom([]int{1, 50, 300, 1500, 4000}).Draw(t, "spinmax"),
+		Slow:    rapid.IntRange(0, 5).Draw(t, "slow"),
+		Procs:   rapid.SampledFrom([]int{2, 4, 16}).Draw(t, "procs"),
+		Ctx:     rapid.Bool().Draw(t, "ctx"),
+	}
+}
